@@ -1293,3 +1293,23 @@ Qed.
 Example indptr_splice_nonvacuous :
   splice [([0; 2; 3], 3); ([0; 0; 1], 1); ([0; 4], 4)] = [0; 2; 3; 3; 4; 8].
 Proof. reflexivity. Qed.
+
+(* axis=None: members of different shapes *)
+Example coo_concat_none_nonvacuous :
+  let a := mkCOO [2; 2] [[0; 1]; [1; 0]] [5; 7] 0 in
+  let b := mkCOO [3] [[2]] [9] 0 in
+  Forall (cwf Z) [a; b] /\ Forall (fun x => c_fill x = c_fill a) [b]
+  /\ coo_concatenate_src Z Z.eqb 0 Z.add None [a; b] = Ok (mkCOO [7] [[1]; [2]; [6]] [5; 7; 9] 0).
+Proof.
+  cbv zeta. split; [repeat (apply Forall_cons; [apply cwf_by_computation; reflexivity|]); apply Forall_nil|].
+  split; [repeat constructor|]. vm_compute. reflexivity.
+Qed.
+
+Example indptr_splice_wf_nonvacuous :
+  Forall (fun m => indptr_ok (fst m) (snd m)) [([0; 2; 3], 3); ([0; 0; 1], 1); ([0], 0); ([0; 4], 4)]
+  /\ splice [([0; 2; 3], 3); ([0; 0; 1], 1); ([0], 0); ([0; 4], 4)] = [0; 2; 3; 3; 4; 8].
+Proof.
+  split; [|reflexivity].
+  repeat (apply Forall_cons; [split; [reflexivity|split; [|reflexivity]]; repeat constructor; simpl; lia|]).
+  apply Forall_nil.
+Qed.
